@@ -555,8 +555,8 @@ def histories(tier):
 
 
 def tasks(tier):
-    from .BK_backend_ops import t_lifecycle       # object creation and _setup: no hidden library-global state
-    out = [("events", run_events), ("set_backend", run_manager), ("backend-lifecycle", t_lifecycle)]
+    from .BK_backend_ops import t_lifecycle, t_object_state       # object creation and _setup: no hidden library-global or shared state
+    out = [("events", run_events), ("set_backend", run_manager), ("backend-lifecycle", t_lifecycle), ("backend-object-state", t_object_state)]
     hs = histories(tier)
     size = 3
     for i in range(0, len(hs), size):
